@@ -4,7 +4,7 @@ set -u
 patch=$1; shift
 cd /repo || exit 2
 if [ -n "$(git status --porcelain)" ]; then echo "repo dirty"; exit 2; fi
-if ! git apply --3way "$patch" 2>/tmp/mk/apply.err; then echo "PATCH DOES NOT APPLY: $(head -3 /tmp/mk/apply.err)"; git checkout -- . ; git reset -q; exit 3; fi
+if ! git apply --3way "$patch" 2>/tmp/mk/apply.err; then echo "PATCH DOES NOT APPLY: $(head -3 /tmp/mk/apply.err)"; git reset -q; git checkout HEAD -- . ; git clean -fdq; exit 3; fi
 git reset -q
 rc=0
 for p in "$@"; do
